@@ -51,7 +51,7 @@ ConfAct(r) ==
   CASE r.ev = "pay"   -> RelayPay(r.p, r.rs)
     [] r.ev = "epoch" -> NextEpoch(r.st.df)
     [] r.ev = "block" -> NextBlock
-    [] r.ev = "down"  -> Down(r.st.df)
+    [] r.ev \in {"down", "bigdown"} -> Down(r.st.df, r.ev)
     [] OTHER -> FALSE
 \* ... and must land on the logged projection (tracked CU is matched separately: after a uint64 wrap
 \* the real counter is a residue mod 2^64 which the clamped domain cannot represent)
